@@ -1,15 +1,32 @@
-(* Run/JudgeC08.v — case type and judge for the C08 correspondence run (whole pipeline, every intermediate value). *)
+(* Run/JudgeC08.v — case type and judge for the C08 correspondence run (whole pipeline, every intermediate value).
+   Modelled and compared exactly, stage by stage, on the implementation's own intermediate values:
+     filter_worst_knees (Model/Pipeline.v), filter_corner_knees (Model/Filters.v, C13: IoU computed in the model),
+     filter_clusters (Model/ClusterFilter.v, C12) over the labels computed by the C11 model (Model/Clustering.v) and, in
+     hull mode, the lower hull computed by the C18 model (Model/Hull.v) — both also compared with what the real
+     clustering function / graham_scan_lower returned —, rdp.mapping (Model/Mapping.v).
+   Oracle tables of the cluster stage (the library's own values): kr.smooth_ranking per multi-member cluster, the sums
+   of shortest distances of hull mode. *)
 From Coq Require Import ZArith List Arith Bool PrimFloat.
-From Knee Require Import Num NumFloat NpList Model.Mapping Model.Pipeline.
+From Knee Require Import Num NumFloat NpList Model.Mapping Model.Pipeline Model.Filters Model.Hull Model.PipelineClosed.
+From Knee Require Export Model.ClusterFilter Model.Clustering.   (* the generated case files name fmode / linkage constructors *)
+From Knee Require Run.JudgeC12.                                  (* table look-ups, keys_ok, top_tie of the C12 judge *)
 Import ListNotations.
 
-(* one run of the real pipeline on a curve of n points with heights ys:
+(* what is recorded about the filter_clusters call: ranking mode, linkage, merge threshold, the labels the real
+   clustering function returned on points_reduced[k2], graham_scan_lower(points_reduced) (hull mode only),
+   kr.smooth_ranking(points_reduced, cluster, mode) per multi-member cluster (keyed by the cluster's knees),
+   np.sum(lf.shortest_distance_points(...)) keyed by inclusive index ranges of the reduced curve *)
+Inductive cinfo :=
+  | CInfo (m : fmode) (lk : linkage) (tl : float) (labels hull : list nat)
+          (scores : list (list nat * list float)) (sd : list (nat * nat * float)).
+
+(* one run of the real pipeline on a curve of n points (xs, ys):
    (red, rem) = simplifier output; knees = <detector>.multi_knee(points[red]); k1 / k2 / k3 = outputs of
-   filter_worst_knees / filter_corner_knees / filter_clusters; out = rdp.mapping(k3, red, rem).
+   filter_worst_knees / filter_corner_knees(.., tc) / filter_clusters; out = rdp.mapping(k3, red, rem).
    None = that stage raised (or returned something that is not a list of non-negative integers). *)
 Inductive case :=
-  | CPipe (n : nat) (ys : list float) (red : option (list nat)) (rem : list row)
-          (knees k1 k2 k3 out : option (list nat)).
+  | CPipe (n : nat) (xs ys : list float) (red : option (list nat)) (rem : list row)
+          (knees k1 k2 k3 out : option (list nat)) (tc : float) (ci : cinfo).
 
 Definition rows_eqb := list_eqb row_eqb.
 Definition opt_list_eqb (a b : option (list nat)) : bool :=
@@ -19,17 +36,52 @@ Definition opt_list_eqb (a b : option (list nat)) : bool :=
   | _, _ => false
   end.
 
+Definition F := T FloatNum.
+
+(* the cluster stage of the model on the reduced curve pr, fed with the implementation's k2 *)
+Definition model_cluster (pr : list (float * float)) (ci : cinfo) (k2 : list nat) : option (list nat) :=
+  match ci with
+  | CInfo m lk tl labels hull scores sd =>
+      let rxs := map fst pr in
+      let mhull := if is_hull m then @Hull.graham_scan_lower FloatNum pr else [] in
+      @cluster_stage FloatNum (@argsort_stable FloatNum) (JudgeC12.score_of scores) mhull (JudgeC12.sd_of sd) rxs m
+                     (@c11_labels FloatNum lk rxs tl) k2
+  end.
+
+(* agree code of the cluster stage: 0 equal, 1 differs (also: C11 labels or C18 hull differ from the library's),
+   4 oracle key missing, 5 a ranked cluster has a tie for the top of NumPy's sort order (np.argsort is unstable on
+   ties: judged on the predicate only) *)
+Definition agree_cluster (pr : list (float * float)) (ci : cinfo) (k2 k3 : list nat) : Z :=
+  match ci with
+  | CInfo m lk tl labels hull scores sd =>
+      if length k2 <=? 1 then (if nat_list_eqb k2 k3 then 0%Z else 1%Z) else
+      let rxs := map fst pr in
+      if negb (opt_list_eqb (@c11_labels FloatNum lk rxs tl k2) (Some labels)) then 1%Z else
+      if is_hull m && negb (nat_list_eqb (@Hull.graham_scan_lower FloatNum pr) hull) then 1%Z else
+      if negb (JudgeC12.keys_ok m (length rxs) k2 labels hull scores sd) then 4%Z else
+      if existsb (fun c => match JudgeC12.rankings_of m rxs hull scores sd c with
+                           | Some r => JudgeC12.top_tie r | None => false end)
+                 (JudgeC12.clusters labels k2) then 5%Z else
+      if opt_list_eqb (model_cluster pr ci k2) (Some k3) then 0%Z else 1%Z
+  end.
+
 (* result code = 100 * agree + holds (see AGENT_GUIDE) *)
 Definition judge (c : case) : Z :=
   match c with
-  | CPipe n ys red rem knees k1 k2 k3 out =>
-      if negb ((2 <=? n) && (length ys =? n) && forallb (fun v => negb (f_isnan v)) ys) then 600%Z else
+  | CPipe n xs ys red rem knees k1 k2 k3 out tc ci =>
+      if negb ((2 <=? n) && (length ys =? n) && (length xs =? n)
+               && forallb (fun v => negb (f_isnan v)) ys && forallb (fun v => negb (f_isnan v)) xs) then 600%Z else
       match red, knees, k1, k2, k3, out with
       | Some red, Some knees, Some k1, Some k2, Some k3, Some out =>
+          let xo := fun i => nth i xs 0%float in
           let yo := fun i => nth i ys 0%float in
           let yr := @reduced_height FloatNum yo red in
-          let m1 := @filter_worst FloatNum yr knees in
-          let a := if nat_list_eqb m1 k1 && opt_list_eqb (mapping k3 red rem true) (Some out) then 0%Z else 1%Z in
+          let pr := @reduced_points FloatNum xo yo red in
+          let m1 := @Pipeline.filter_worst FloatNum yr knees in
+          let m2 := @filter_corner FloatNum pr k1 tc in
+          let a :=
+            if negb (nat_list_eqb m1 k1 && nat_list_eqb m2 k2 && opt_list_eqb (mapping k3 red rem true) (Some out)) then 1%Z
+            else agree_cluster pr ci k2 k3 in
           let h :=
             if negb (WFb n red && rows_eqb rem (rows red)) then 2%Z
             else if negb (strictly_increasing knees && forallb (fun i => i <? length red) knees) then 3%Z
@@ -44,13 +96,24 @@ Definition judge (c : case) : Z :=
       end
   end.
 
-Definition show (c : case) : option (list nat) * option (list nat) :=
+(* the model's outputs, for replay files: worst-knee, corner and cluster stages (each on the implementation's input
+   to that stage), the labels of the C11 model, the mapped result *)
+Definition show (c : case) : option (list nat) * option (list nat) * option (list nat) * option (list nat) * option (list nat) :=
   match c with
-  | CPipe n ys red rem knees k1 k2 k3 out =>
-      match red, knees, k3 with
-      | Some red, Some knees, Some k3 =>
+  | CPipe n xs ys red rem knees k1 k2 k3 out tc ci =>
+      match red with
+      | Some red =>
+          let xo := fun i => nth i xs 0%float in
           let yo := fun i => nth i ys 0%float in
-          (Some (@filter_worst FloatNum (@reduced_height FloatNum yo red) knees), mapping k3 red rem true)
-      | _, _, _ => (None, None)
+          let pr := @reduced_points FloatNum xo yo red in
+          (option_map (@Pipeline.filter_worst FloatNum (@reduced_height FloatNum yo red)) knees,
+           option_map (fun l => @filter_corner FloatNum pr l tc) k1,
+           match k2 with Some l => model_cluster pr ci l | None => None end,
+           match k2, ci with
+           | Some l, CInfo _ lk tl _ _ _ _ => @c11_labels FloatNum lk (map fst pr) tl l
+           | None, _ => None
+           end,
+           match k3 with Some l => mapping l red rem true | None => None end)
+      | None => (None, None, None, None, None)
       end
   end.
